@@ -363,6 +363,13 @@ func injectGraph(r *lib.Rng, c *Case, keys []string) {
 	c.Inj = append(c.Inj, kind)
 	n := len(keys)
 	any := func() string { return keys[r.Intn(n)] }
+	// a start node of an edge / branch: START now and then (checks must not special-case it)
+	src := func() string {
+		if r.Chance(1, 4) {
+			return "start"
+		}
+		return keys[r.Intn(n)]
+	}
 	ins := func(call Call) { c.Calls = insertAt(c.Calls, injPos(r, c.Calls), call) }
 	switch kind {
 	case "reserved":
@@ -381,7 +388,7 @@ func injectGraph(r *lib.Rng, c *Case, keys []string) {
 	case "edge-unknown-start":
 		ins(Call{Op: "addedge", From: "nope", To: any()})
 	case "edge-unknown-end":
-		ins(Call{Op: "addedge", From: any(), To: "nope"})
+		ins(Call{Op: "addedge", From: src(), To: "nope"})
 	case "dup-edge":
 		var idx []int
 		for i, k := range c.Calls {
@@ -398,11 +405,11 @@ func injectGraph(r *lib.Rng, c *Case, keys []string) {
 	case "branch-from-end":
 		ins(Call{Op: "addbranch", From: "end", Ends: []string{any(), "end"}})
 	case "branch-one":
-		ins(Call{Op: "addbranch", From: any(), Ends: []string{[]string{any(), "end"}[r.Intn(2)]}})
+		ins(Call{Op: "addbranch", From: src(), Ends: []string{[]string{any(), "end"}[r.Intn(2)]}})
 	case "branch-empty":
-		ins(Call{Op: "addbranch", From: any(), Ends: nil})
+		ins(Call{Op: "addbranch", From: src(), Ends: nil})
 	case "branch-unknown-end":
-		ins(Call{Op: "addbranch", From: any(), Ends: []string{"nope", "end"}})
+		ins(Call{Op: "addbranch", From: src(), Ends: []string{"nope", []string{"end", any()}[r.Intn(2)]}})
 	case "cycle":
 		if n >= 2 {
 			j := r.Range(1, n-1)
@@ -806,9 +813,9 @@ func injectWorkflow(r *lib.Rng, c *Case, keys []string) {
 		insInput(Call{Op: "addinput", To: t, From: any(), In: "normal", Fields: []string{"A"}})
 		insInput(Call{Op: "addinput", To: t, From: "start", In: "normal", Fields: []string{"A"}})
 	case "branch-unknown-end":
-		ins(Call{Op: "addbranch", From: any(), Ends: []string{"nope", []string{"end", keys[0]}[r.Intn(2)]}})
+		ins(Call{Op: "addbranch", From: []string{any(), any(), "start"}[r.Intn(3)], Ends: []string{"nope", []string{"end", keys[0]}[r.Intn(2)]}})
 	case "branch-one":
-		ins(Call{Op: "addbranch", From: any(), Ends: []string{[]string{"end", any()}[r.Intn(2)]}})
+		ins(Call{Op: "addbranch", From: []string{any(), any(), "start"}[r.Intn(3)], Ends: []string{[]string{"end", any()}[r.Intn(2)]}})
 	case "branch-unknown-start":
 		ins(Call{Op: "addbranch", From: "nope", Ends: []string{any(), "end"}})
 	case "cycle":
